@@ -698,10 +698,11 @@ package impl
 //@   requires forall k int :: 0 <= k && k < len(args) ==> args[k] != nil
 //@   defines res == toS(7, input, args) && err == toE(7, input, args)
 //@   ensures len(input) == 0 && len(args) <= 1 ==> err == nil && len(res) == 0
-//@   ensures len(input) == 1 && len(args) == 0 ==> err == nil
+//@   ensures len(args) > 1 && len(input) == 1 ==> is(err, ErrWrongArity)
 //@   ensures err == nil ==> len(res) <= 1 && (len(res) == 1 ==> isKind(7, res[0]))
 //@   ensures len(input) == 1 && len(args) == 0 && fromOk(input[0]) && isKind(7, fromS(input[0])) ==> err == nil && len(res) == 1 && res[0] == fromS(input[0])
-//@   assigns nothing
+//@   ensures len(input) == 1 && len(args) == 0 && !fromOk(input[0]) ==> err == nil && len(res) == 0
+//@   assigns ctx.LastResult, ctx.BeforeLastResult
 //
 //@ func ConvertsToQuantity(ctx, input, args) (res, err)
 //@   requires ctx != nil && validColl(input)
